@@ -482,6 +482,31 @@ FINDS = ("find", "first", "any", "all", "find_idx", "first_idx")
 REDUCES = ("reduce", "fold", "sum", "min", "max", "min_by", "max_by", "min_by_key", "max_by_key")
 
 
+def schedule_stats(traces):
+    """How many distinct schedules (grant sequences) the deterministic scheduler actually drove the
+    library through, how long they were, and how many replays diverged. Evidence only."""
+    seen, steps, diverged, sched_runs = set(), 0, 0, 0
+    for tf in traces:
+        prog = None
+        with open(tf) as f:
+            for line in f:
+                if '"e":"prog"' in line:
+                    try:
+                        prog = json.loads(line)
+                    except Exception:
+                        prog = None
+                elif '"e":"end"' in line and prog is not None and prog.get("mode") != "free":
+                    ev = json.loads(line)
+                    sched_runs += 1
+                    g = ev.get("grants") or []
+                    steps += len(g)
+                    if ev.get("dstep", -1) >= 0:
+                        diverged += 1
+                    seen.add((json.dumps(prog["p"], sort_keys=True), tuple(g)))
+    return {"scheduled_runs": sched_runs, "distinct_program_schedule_pairs": len(seen),
+            "scheduler_steps": steps, "replays_that_diverged": diverged}
+
+
 def clause_applications(traces, clauses):
     """Counts, per clause, the events at which its antecedent held (so that the clause was
     really evaluated, not vacuously true). Evidence only; computed from the recorded traces."""
